@@ -93,6 +93,7 @@ CONTRACTS[F + "sparse_sum"] = dict(
     # it (C18 compares values only); the contract has to admit it: the index arrays are only guaranteed intact when both operands are
     # non-empty.
     modifies=["ind1", "ind2"],
+    returns="(int[],real[])",
     ensures=[
         "implies(len(old(ind1)) > 0 and len(old(ind2)) > 0, unchanged(ind1) and unchanged(ind2))",
         "len(result[0]) == len(result[1])",
@@ -109,16 +110,22 @@ CONTRACTS[F + "sparse_sum"] = dict(
 )
 
 _DU_INV = [
+    "implies(forall(0, len(data1), lambda k: data1[k] >= 0) and forall(0, len(data2), lambda k: data2[k] >= 0), "
+    "forall(0, len(result_data1), lambda k: result_data1[k] >= 0 and result_data2[k] >= 0))",
     "0 <= i1 and i1 <= len(ind1) and 0 <= i2 and i2 <= len(ind2) and 0 <= nnz and nnz <= len(result_ind)",
     "len(result_ind) == len(result_data1) and len(result_ind) == len(result_data2)",
     "implies(i1 < len(ind1), nnz <= arr_union_pos1(i1))",
     "implies(i2 < len(ind2), nnz <= arr_union_pos2(i2))",
 ]
+_NN = "forall(0, len(data1), lambda k: data1[k] >= 0) and forall(0, len(data2), lambda k: data2[k] >= 0)"
 CONTRACTS[F + "dense_union"] = dict(
     params=dict(ind1="int[]", data1="real[]", ind2="int[]", data2="real[]"),
     requires=SORTED_PRE,
+    returns="(real[],real[])",
     ensures=[
         "len(result[0]) == len(result[1])",
+        # non-negative inputs give non-negative dense vectors (what the dense divergences require)
+        "implies(%s, forall(0, len(result[0]), lambda k: result[0][k] >= 0 and result[1][k] >= 0))" % _NN,
         "unchanged(ind1) and unchanged(ind2) and unchanged(data1) and unchanged(data2)",
     ],
     loops={
@@ -208,3 +215,25 @@ CONTRACTS[F + "arr_union"]["runtime_ghost_out"] = dict(
     pos1=lambda args, result: (lambda a: _index_of(result, args["ar1"][a])),
     pos2=lambda args, result: (lambda b: _index_of(result, args["ar2"][b])))
 CONTRACTS[F + "arr_intersect"]["runtime_ghost_out"] = dict(pos=lambda args, result: (lambda a: _index_of(result, args["ar1"][a])))
+
+
+# ---------------------------------------------------------------- the remaining sparse wrappers (C10 memory safety, C18 "sparse = dense" plumbing)
+_SP = dict(ind1="int[]", data1="real[]", ind2="int[]", data2="real[]")
+CONTRACTS[F + "sparse_diff"] = dict(
+    params=_SP, requires=SORTED_PRE, returns="(int[],real[])",
+    modifies=["ind1", "ind2"],      # inherits sparse_sum's alias case (one operand empty)
+    ensures=["len(result[0]) == len(result[1])", "strictly_increasing(result[0])", "unchanged(data1) and unchanged(data2)",
+             "implies(len(old(ind1)) > 0 and len(old(ind2)) > 0, unchanged(ind1) and unchanged(ind2))"],
+)
+CONTRACTS[F + "sparse_total_variation"] = dict(
+    params=_SP, requires=SORTED_PRE, returns="real",
+    modifies=["ind1", "ind2"],
+    ensures=["result >= 0", "unchanged(data1) and unchanged(data2)"],
+    loops={"for#1": dict(invariant=["result >= 0"])},
+)
+for _f, _dense in (("sparse_jensen_shannon_divergence", "jensen_shannon_divergence"), ("sparse_symmetric_kl_divergence", "symmetric_kl_divergence")):
+    # the dense divergence is applied to the two vectors spread over the union of the index sets (equal lengths by dense_union's contract)
+    CONTRACTS[F + _f] = dict(params=_SP, requires=SORTED_PRE + [_NN], returns="real",
+                             ensures=["unchanged(ind1) and unchanged(ind2) and unchanged(data1) and unchanged(data2)"])
+for _f in ("sparse_diff", "sparse_total_variation", "sparse_jensen_shannon_divergence", "sparse_symmetric_kl_divergence"):
+    CONTRACTS[F + _f]["gen_all"] = _gen_sparse_pair
